@@ -15,9 +15,9 @@ RULE = ("alias chains over one register: bounded-exhaustive over register sizes 
         "compared: NamedQubit.resolve_qubit, fill_in_map, get_used_qubit_indices, the emulator (X on the reference => outcome "
         "2^k certain) and the pyGSTi label. non-trivial = chain has a strided or offset slice; distinct = (size, chain, style)")
 ASSUMPTIONS = ["model arithmetic on declarations (vf/meaning.py core_from_sx + Evaluator.elems)",
-               "negative / zero steps and out-of-range slices are not generated here (C14)"]
-TIERS = {"quick": {"shards": 8, "budget_s": 50}, "thorough": {"shards": 16, "budget_s": 420}}
-REQUIRE = {"references-checked": 2000, "consumer:resolve_qubit": 2000, "consumer:fill_in_map": 2000,
+               "zero steps and out-of-range slices are not generated here (C14)"]
+TIERS = {"quick": {"shards": 8, "budget_s": 120}, "thorough": {"shards": 16, "budget_s": 600}}
+REQUIRE = {"invalid-reference:consumers-observed": 1000, "chain-with-slice-counting-down": 500, "references-checked": 2000, "consumer:resolve_qubit": 2000, "consumer:fill_in_map": 2000,
            "consumer:used_qubits": 2000, "consumer:emulator": 1000, "consumer:pygsti": 500, "style:let": 200, "style:override": 200,
            "style:default": 200, "depth>=2": 500, "position:macro-arg": 200, "position:macro-body": 200, "position:macro-index": 200}
 
@@ -53,6 +53,13 @@ def slices(n):
                 idx = list(range(start, stop, step))
                 if idx and idx[-1] < n and stop <= n:
                     out.append((start, stop, step))
+    # slices counting down: every (start, step, element count), with the tightest and the loosest stop
+    for start in range(n):
+        for step in range(1, n + 1):
+            for cnt in range(1, start // step + 2):
+                last = start - (cnt - 1) * step
+                for stop in sorted({last - 1, max(last - step, -1)}):
+                    out.append((start, stop, -step))
     return out
 
 
@@ -77,9 +84,9 @@ def build_program(n, chain, style, rng, offset=0, ov=None):
     header = []
     counter = [0]
 
-    def val(v, role="index"):
+    def val(v, role="index", default=None):
         if style == "let" and rng.random() < 0.7:
-            name = "c%d" % v
+            name = "c%d" % v if v >= 0 else "m%d" % -v
             if name not in lets:
                 lets[name] = v
             return name
@@ -89,6 +96,8 @@ def build_program(n, chain, style, rng, offset=0, ov=None):
             lets[name] = {"index": 0, "start": 0, "step": 1}.get(role, v) if role != "stop" else n
             if role == "size":
                 lets[name] = n
+            if default is not None:
+                lets[name] = default
             ov[name] = v
             return name
         return v
@@ -103,9 +112,11 @@ def build_program(n, chain, style, rng, offset=0, ov=None):
             maps.append(("map", name, names[-1]))
         else:
             st, sp, se = spec[1:]
-            s_st = None if (style == "default" and st == 0) else val(st, "start")
-            s_sp = None if (style == "default" and sp == src_len) else val(sp, "stop")
-            s_se = None if (style == "default" and se == 1) else val(se, "step")
+            # declared defaults of overridden lets must give a legal, maximal alias in the same direction
+            down = se < 0
+            s_st = None if (style == "default" and st == 0) else val(st, "start", src_len - 1 if down else None)
+            s_sp = None if (style == "default" and sp == src_len) else val(sp, "stop", -1 if down else src_len)
+            s_se = None if (style == "default" and se == 1) else val(se, "step", -1 if down else None)
             maps.append(("map", name, names[-1], s_st, s_sp, s_se))
         src_len = spec_len(spec, src_len)
         names.append(name)
@@ -202,7 +213,8 @@ def judge(case):
     ks = [q[0] for q in ks]
     o = lib.outcome(lib.parse, sx.to_text(prog), X.native())
     if o[0] != "ok":
-        return "ok", [("rejected-valid-program:parse:" + o[1], {"error": o[2]})], {"refs": len(ks)}
+        return "ok", [("rejected-valid-program:parse:" + o[1], {"error": o[2], "text": sx.to_text(prog)})], {
+            "refs": len(ks), "resolve": 0, "fill": 0, "used": 0, "emu": 0, "gsti": 0}
     c = o[1]
     fails = []
     info = {"refs": len(ks), "resolve": 0, "fill": 0, "used": 0, "emu": 0, "gsti": 0}
@@ -325,6 +337,63 @@ def judge(case):
     return "ok", fails, info
 
 
+def judge_invalid(case):
+    """A reference that denotes NO element (index below zero or beyond the alias, known only through a let):
+    the consumers agree only if every one of them refuses it -- none may resolve it to some qubit."""
+    n, start, stop, step, idx = case["n"], case["start"], case["stop"], case["step"], case["idx"]
+    via = case.get("via", "alias")
+    L = len(range(start, stop, step))
+    assert not (0 <= idx < (L if via == "alias" else n))
+    hdr = "let i %d\nregister q[%d]\n" % (idx, n)
+    if via == "alias":
+        hdr += "map a q[%d:%d:%d]\n" % (start, stop, step)
+    ref = "a[i]" if via == "alias" else "q[i]"
+    text = hdr + "prepare_all\nX %s\nmeasure_all\n" % ref
+    o = lib.outcome(lib.parse, text, X.native())
+    info = {"consumers": 0}
+    if o[0] != "ok":
+        return ("ok" if o[0] == "jaqal" else "ok"), ([] if o[0] == "jaqal" else [("invalid-reference:parse-crashed:" + o[1], {"error": o[2], "text": text})]), info
+    c = o[1]
+    st = x_statements(c)[0]
+    arg = list(st.parameters.values())[0]
+    fails = []
+    for name, fn in (("resolve_qubit", arg.resolve_qubit), ("used_qubits:statement", lambda: lib.used_qubits(st)),
+                     ("used_qubits:circuit", lambda: lib.used_qubits(c)),
+                     ("fill_in_map", lambda: lib.fill_in_map(lib.fill_in_let(c))),
+                     ("emulator", lambda: lib.budgeted(lib.run, 100000, c))):
+        o = fn() if name == "emulator" else lib.outcome(fn)  # budgeted() returns an outcome tuple itself
+        if o[0] == "budget":
+            continue
+        info["consumers"] += 1
+        if o[0] == "exc":
+            fails.append(("invalid-reference:%s-crashed:%s" % (name, o[1]), {"error": o[2], "text": text}))
+        elif o[0] == "ok":
+            got = o[1]
+            if name.startswith("used"):
+                got = {k: sorted(v) for k, v in dict(got).items()}
+            elif name == "resolve_qubit":
+                got = (got[0].name, got[1])
+            else:
+                got = "accepted"
+            fails.append(("invalid-reference:%s-resolved-it" % name, {"got": got, "text": text}))
+    return "ok", fails, info
+
+
+def invalid_cases(rng):
+    n = rng.randint(2, 6)
+    if rng.random() < 0.3:
+        return {"kind": "invalid", "via": "register", "n": n, "start": 0, "stop": n, "step": 1, "idx": rng.choice([-1, -2, n, n + 1])}
+    step = rng.choice([1, 1, 2, -1, -2])
+    if step > 0:
+        start = rng.randint(0, n - 1)
+        stop = rng.randint(start + 1, n)
+    else:
+        start = rng.randint(0, n - 1)
+        stop = rng.randint(-1, start - 1)
+    L = len(range(start, stop, step))
+    return {"kind": "invalid", "via": "alias", "n": n, "start": start, "stop": stop, "step": step, "idx": rng.choice([-1, -2, -L, L, L + 1])}
+
+
 def strip_param_index(prog):
     hdr = [s for s in prog[1:] if s[0] in sx.HEADER]
     macros = [s for s in prog[1:] if s[0] == "macro" and not s[1].startswith("mi")]
@@ -384,6 +453,8 @@ def process(ctx, case, feats):
     rec.count("style:" + case["style"])
     if len(case["chain"]) >= 2:
         rec.count("depth>=2")
+    if feats.get("counting-down"):
+        rec.count("chain-with-slice-counting-down")
     rec.count("depth=%d" % len(case["chain"]))
     for pos in feats["positions"]:
         rec.count("position:" + pos)
@@ -391,6 +462,8 @@ def process(ctx, case, feats):
         f = []
         if any(s[0] == "slice" and (s[1] != 0 or s[3] != 1) for s in case["chain"]):
             f.append("offset-or-stride")
+        if any(s[0] == "slice" and s[3] < 0 for s in case["chain"]):
+            f.append("counting-down")
         if len(case["chain"]) > 1:
             f.append("alias-of-alias")
         if case["style"] != "lit":
@@ -406,6 +479,7 @@ def run_case(ctx, n, chain, style, seed):
     prog, refs = build_program(n, chain, style, rng, offset=seed, ov=ov)
     case = {"prog": prog, "n": n, "chain": [list(c) for c in chain], "style": style, "ov": ov}
     feats = {"strided": any(s[0] == "slice" and (s[1] != 0 or s[3] != 1) for s in chain),
+             "counting-down": any(s[0] == "slice" and s[3] < 0 for s in chain),
              "positions": sorted({p for p, i, r in refs})}
     process(ctx, case, feats)
     return prog
@@ -433,6 +507,8 @@ def shard(ctx):
     plan = []
     for n in sizes:
         for depth in ((1, 2) if (ctx.quick or n > 4) else (1, 2, 3)):
+            if ctx.quick and n == 5 and depth == 2:
+                continue  # 1629 chains: left to the random part and to the thorough tier
             plan.append((n, depth))
     for n, depth in plan:
         for chain in chains(n, depth):
@@ -462,10 +538,26 @@ def shard(ctx):
             chain.append(spec)
             cur = spec_len(spec, cur)
         run_case(ctx, n, tuple(chain), rng.choice(["lit", "default", "let", "override"]), rng.randrange(1 << 30))
+    # references that denote no element: every consumer must refuse them
+    for _ in range(ctx.scale(400, 5000)):
+        case = invalid_cases(rng)
+        st, fails, info = judge_invalid(case)
+        rec.case(["invalid", sorted(case.items())], nontrivial=True)
+        rec.count("invalid-reference:consumers-observed", info["consumers"])
+        for clause, detail in fails:
+            f = ["negative-index" if case["idx"] < 0 else "index-beyond", "through-" + case["via"]]
+            if case["step"] < 0:
+                f.append("counting-down")
+            rec.violation(sig("C06", clause, f), detail, case)
     monitors.report_contracts(rec)
 
 
 def replay(ctx, case):
+    if case.get("kind") == "invalid":
+        st, fails, info = judge_invalid(case)
+        for clause, detail in fails:
+            ctx.rec.violation(sig("C06", clause), detail, case)
+        return
     prog = case_prog(case)
     st, fails, info = judge(dict(case, prog=prog))
     for clause, detail in fails:
